@@ -30,9 +30,7 @@ def isOutOfDomain : Out → Bool
   | .error .outOfDomain => true
   | _ => false
 
-def judge (line : String) : String :=
-  match line.splitOn " | " with
-  | [hdr, preS, opS, resS, postS] =>
+def judge5 (hdr preS opS resS postS : String) (viewS : Option String) : String :=
     match (hdr.splitOn " ").filter (· ≠ "") with
     | [seq, nowS, mode] =>
       match nowS.toInt?, runP pDump preS, runP pOp opS, runP pOut resS, runP pDump postS with
@@ -61,7 +59,13 @@ def judge (line : String) : String :=
         let gv := match op with
           | .keyDeleteExpired n => if n ≤ 0 then (if post.keys.all (fun r => r.live now) then "1" else "0") else "-"
           | _ => "-"
-        let tail := s!"A={av} P={invPre} I={inv} S={sv} N={nv} V={vv} T={tv} G={gv} X={xv} E={ev} K={ks}"
+        -- C11, views: what `select * from v…` returned vs the model of the views on the dumped tables
+        let wv := match viewS with
+          | none => "-"
+          | some vs => match runP pViews vs with
+            | .ok vd => if viewsAgree now post vd then "1" else "0"
+            | .error _ => "E"
+        let tail := s!"A={av} P={invPre} I={inv} S={sv} N={nv} V={vv} T={tv} G={gv} W={wv} X={xv} E={ev} K={ks}"
         if cands.any (fun r => isOutOfDomain r.out) then s!"{seq} M=- {tail}"
         else
           match cands.find? (fun r => outEq r.out res && decide (canon r.db = post)) with
@@ -78,6 +82,11 @@ def judge (line : String) : String :=
       | _, _, _, .error e, _ => s!"{seq} ERR res: {e}"
       | _, _, _, _, .error e => s!"{seq} ERR post: {e}"
     | _ => "? ERR bad header"
+
+def judge (line : String) : String :=
+  match line.splitOn " | " with
+  | [hdr, preS, opS, resS, postS] => judge5 hdr preS opS resS postS none
+  | [hdr, preS, opS, resS, postS, viewS] => judge5 hdr preS opS resS postS (some viewS)
   | parts => s!"? ERR bad line ({parts.length} parts)"
 
 /-- `FAULT seq now | pre | what | result | post`: an operation or user transaction that was made to
